@@ -362,6 +362,7 @@ def _is_root_call(flow, expr, nid, call):
 
 
 def r2_prepare(run, w):
+  _set_ltv(w)
   R2 = run.rule("C11-R2", "BaseReferenceColumn.prepare_new_values: stored values of the same "
                 "rows are the old values, one update per registered reverse column; registry "
                 "add/remove pairing", floor=9)
@@ -379,15 +380,15 @@ def r2_prepare(run, w):
   reg_attr = lparts[-2]
   init = w.fn("column.BaseReferenceColumn.__init__")
   dest = w.fn("column.BaseReferenceColumn.destroy")
-  adds = [c for (n, c, nm) in init.calls() if nm == "_multimap_add"]
-  rems = [c for (n, c, nm) in dest.calls() if nm == "_multimap_remove"]
+  adds = [c for (n, c, nm) in init.calls() if H.calls_anchor(w, init, c, "column._multimap_add")]
+  rems = [c for (n, c, nm) in dest.calls() if H.calls_anchor(w, dest, c, "column._multimap_remove")]
   add = _single(adds, "BaseReferenceColumn.__init__: _multimap_add")
   ma = w.fn("column._multimap_add")
   mr = w.fn("column._multimap_remove")
-  pa = ma.fi.params()
-  if len(pa) != 3 or len(mr.fi.params()) != 3:
+  pa = H._np(ma.fi)
+  if len(pa) != 3 or len(H._np(mr.fi)) != 3:
     raise AnalysisError("_multimap_add/_multimap_remove: parameter list changed")
-  ab = H.bind_args(add, ma.fi, skip_self=False)
+  ab = H.bind_args(add, ma.fi)
   a_map, a_key, a_val = [ab.get(x) for x in pa]
   ok = None not in (a_map, a_key, a_val) and \
       _xname(init, a_map) == "self._table." + reg_attr and _xname(init, a_val) == "self" and \
@@ -411,8 +412,8 @@ def r2_prepare(run, w):
          ok and key_ok, fi=fn.fi, node=lc)
   ok = len(rems) == 1
   if ok:
-    rb = H.bind_args(rems[0], mr.fi, skip_self=False)
-    ok = [_xname(dest, rb.get(x)) if rb.get(x) is not None else None for x in mr.fi.params()] == \
+    rb = H.bind_args(rems[0], mr.fi)
+    ok = [_xname(dest, rb.get(x)) if rb.get(x) is not None else None for x in H._np(mr.fi)] == \
         [_xname(init, x) for x in (a_map, a_key, a_val)]
   if ok:
     ga = H.atom_texts(H.guard_atoms(init.node, _stmt_of(init.node, add)))
@@ -504,11 +505,11 @@ def r2_prepare(run, w):
          witness="; ".join("%s=%s" % (short(t), p) for (t, p) in other) or None, fi=fn.fi,
          node=gc)
   # emission: one action per registered reverse column
-  a2as = [c for c in calls_in(fn.node) if _xname(fn, c.func) == "_adjustments_to_action"]
+  a2as = [c for c in calls_in(fn.node) if H.calls_anchor(w, fn, c, "column._adjustments_to_action")]
   a2a = _single(a2as, "prepare_new_values: _adjustments_to_action call")
   an = flow.node_of(a2a)
-  ab2 = H.bind_args(a2a, w.fn("column._adjustments_to_action").fi, skip_self=False)
-  a_node, a_pairs = [ab2.get(x) for x in w.fn("column._adjustments_to_action").fi.params()[:2]]
+  ab2 = H.bind_args(a2a, w.fn("column._adjustments_to_action").fi)
+  a_node, a_pairs = [ab2.get(x) for x in H._np(w.fn("column._adjustments_to_action").fi)[:2]]
   par = _parents(fn.node)
   # the generator that supplies the reverse column: innermost enclosing comprehension / for loop
   lv = a_node.value.id if isinstance(a_node, ast.Attribute) and a_node.attr == "node" and \
@@ -618,6 +619,14 @@ def r2_prepare(run, w):
            "reverse adjustments are made)", ok, fi=m)
 
 
+LTV = ["_list_to_value"]      # current name of the conversion method (set per run, see r2/r3/r4)
+
+
+def _set_ltv(w):
+  fi = H.resolve_anchor(w.repo, "column.ReferenceColumn._list_to_value")
+  LTV[0] = fi.name if fi is not None else "_list_to_value"
+
+
 def _pairs_through_list_to_value(pairs, colvar, strict=False):
   """For `[(row_id, <colvar>._list_to_value(value)) for (row_id, value) in <src>]` the <src>
   expression. Anything else: None -- or, with strict=True, False when it is positively a
@@ -639,7 +648,7 @@ def _pairs_through_list_to_value(pairs, colvar, strict=False):
     return unknown(short(pairs))
   if g.ifs:
     return False if strict else None
-  if isinstance(e.elts[1], ast.Call) and text(e.elts[1].func) == colvar + "._list_to_value" and \
+  if isinstance(e.elts[1], ast.Call) and text(e.elts[1].func) == colvar + "." + LTV[0] and \
       [text(a) for a in e.elts[1].args] == [val] and not e.elts[1].keywords:
     return g.iter
   return False if strict else None
@@ -689,6 +698,7 @@ def _len_set(flow, atoms, param):
 
 
 def r3_unique(run, w):
+  _set_ltv(w)
   R3 = run.rule("C11-R3", "ReferenceColumn._list_to_value raises UniqueReferenceError exactly for "
                 "lists of two or more targets, before any return; the error is an Exception; "
                 "every reverse-column write passes _list_to_value", floor=4)
@@ -751,10 +761,10 @@ def r3_unique(run, w):
     f2 = w.fn(q)
     fl2 = H.Flow(f2)
     for c in calls_in(f2.node):
-      if _xname(f2, c.func) == "_adjustments_to_action":
+      if H.calls_anchor(w, f2, c, "column._adjustments_to_action"):
         n_sites += 1
-        b = H.bind_args(c, a2a_fi, skip_self=False)
-        a0, a1 = [b.get(x) for x in a2a_fi.params()[:2]]
+        b = H.bind_args(c, a2a_fi)
+        a0, a1 = [b.get(x) for x in H._np(a2a_fi)[:2]]
         colvar = text(a0.value) if isinstance(a0, ast.Attribute) and a0.attr == "node" else None
         pairs = H.resolve(fl2, a1, fl2.node_of(c)) if a1 is not None else None
         if colvar is None:
@@ -770,6 +780,7 @@ def r3_unique(run, w):
 # --------------------------------------------------------------------------------------- R4
 
 def r4_rebuild(run, w):
+  _set_ltv(w)
   R4 = run.rule("C11-R4", "reverse column is rebuilt after a type change (from the new column "
                 "object, after the schema action) and filled after linking; the rebuild covers "
                 "every target row", floor=6)
@@ -887,14 +898,14 @@ def r4_rebuild(run, w):
   fn = w.fn("column.BaseReferenceColumn.recalc_from_reverse_values")
   flow = H.Flow(fn)
   a2a_fi = w.fn("column._adjustments_to_action").fi
-  a2a = [c for c in calls_in(fn.node) if _xname(fn, c.func) == "_adjustments_to_action"]
+  a2a = [c for c in calls_in(fn.node) if H.calls_anchor(w, fn, c, "column._adjustments_to_action")]
   ok = False
   ok_col = False
   wit = None
   if len(a2a) == 1:
     an = flow.node_of(a2a[0])
-    b = H.bind_args(a2a[0], a2a_fi, skip_self=False)
-    a0, a1 = [b.get(x) for x in a2a_fi.params()[:2]]
+    b = H.bind_args(a2a[0], a2a_fi)
+    a0, a1 = [b.get(x) for x in H._np(a2a_fi)[:2]]
     # the (target row, referring rows) pairs: one per row of the target table, unconditionally
     src = None
     if isinstance(a0, ast.Attribute) and a0.attr == "node" and a1 is not None:
